@@ -61,6 +61,17 @@ def run(ctx, seed_offset=0, ncases=None):
     classify(res, scs, reps, mons)
     G.samples(res, scs, mons)
     res.rule = G.RULE
+    if not seed_offset:
+        binary = C.build_harness()
+        r, _ = C.run_harness(binary, ['gochan-d9', '-seed', str(ctx['seed'])], ctx['pid'], 'precancel.json', timeout=180)
+        for pc in r.get('pre_cancelled') or []:
+            res.evaluations += 1; res.count('subscribe with an already cancelled context, then Close')
+            if not pc['close_returned']:
+                res.violations.append(dict(signature='C07/close-hangs-after-subscribe-with-cancelled-context', what='Close did not return within 3 s after a Subscribe whose context was already cancelled', case=pc))
+            elif not pc['chan_closed']:
+                res.violations.append(dict(signature='C07/cancelled-subscription-channel-not-closed', what='the channel of a subscription whose context was cancelled before Subscribe was never closed', case=pc))
+            elif not (pc['publish_returned'] and pc['second_subscribe_ok'] and pc['second_received']):
+                res.violations.append(dict(signature='C07/cancel-affects-other-subscription', what='after a Subscribe with an already cancelled context a normal subscription no longer works', case=pc))
     from . import c07deco
     c07deco.run_into(ctx, res, seed_offset)
     if ctx['tier'] == 'thorough' and not seed_offset:
